@@ -1,3 +1,3 @@
 SPECIFICATION Spec
-INVARIANTS LinIsExact NoLostUpdate CasHonest
+INVARIANTS LinIsExact NoLostUpdate CasHonest HandOff
 CHECK_DEADLOCK FALSE
